@@ -219,7 +219,7 @@ def configs(tier):
     for nb, otype, m, form in ((2, 'n', 2, 'es'), (3, 'v', 3, 'es'), (4, 'n', 2, 'ndarray')) if q else \
             ((1, 'n', 2, 'es'), (2, 'n', 2, 'es'), (3, 'v', 3, 'es'), (4, 'n', 2, 'ndarray'), (4, 'v', 3, 'es'), (3, 'n', 4, 'es')):
         out.append((f'adc-short-{nb}bit-{otype}-m{m}-{form}', scen_adc_short, dict(m=m, bits=nb, otype=otype, form=form), {}))
-    for nb, otype, m, form in ((3, 'n', 2, 'es'), (2, 'v', 3, 'ndarray')) if q else ((3, 'n', 2, 'es'), (2, 'v', 3, 'ndarray'), (4, 'n', 3, 'es'), (1, 'n', 2, 'ndarray')):
+    for nb, otype, m, form in ((3, 'n', 2, 'es'), (2, 'v', 3, 'ndarray')) if q else ((3, 'n', 2, 'es'), (2, 'v', 3, 'ndarray'), (3, 'n', 3, 'es'), (1, 'n', 2, 'ndarray')):
         out.append((f'adc-short-int16-{nb}bit-{otype}-m{m}-{form}', scen_adc_short, dict(m=m, bits=nb, otype=otype, form=form, dtype='int16'), {}))
     for m in (2, 3):
         out.append((f'adc-defined-m{m}', scen_adc_defined, dict(m=m, bits=3, otype='v'), {}))
